@@ -25,11 +25,13 @@ REGISTRY = dict(
           "noise type raises NotImplementedError, for every noise-kind list through the whole pipeline (kernel-checked "
           "counterexample for the tree before the create_impl fix). Model tied to the code by bit-exact binary64 "
           "correspondence on a boundary-heavy grid; binary64 remark: p*(1e-12/p) may be 1 ulp below 1e-12, the "
-          "real-code oracle accepts 4 ulp."),
+          "real-code oracle accepts 4 ulp. The refusal also covers the noise model in effect when it comes from the "
+          "device (prefer_device_noise_model; D22, fixed in de798eb): DmrgRefusesEffectiveNoise true is proved, the "
+          "pre-fix variant has a kernel-checked counterexample and a regression is reported with the device witness."),
     note=("Trusted: Lean kernel + propext/Classical.choice/Quot.sound; Mathlib; hand-written Model.Config tied by "
           "correspondence only; the tolerance theorem is exact arithmetic (binary64 gap measured, <= 1 ulp observed, "
-          "4 ulp allowed); the DMRG noise check reads config.noise_model, so with prefer_device_noise_model=True a "
-          "device noise model is outside the theorem (notes/config.md)."),
+          "4 ulp allowed); the effective-noise check of run() is modelled by the `fixed` switch of acceptDev and "
+          "resolved against the real run() on every run."),
     technique="Lean 4 proof (ordered-field algebra, list induction, finite case analysis) + bit-exact model/implementation correspondence",
     design_ref="DESIGN.md §5 C33",
 )
@@ -214,7 +216,8 @@ def device_case(dev, cfgz, prefer, solver):
 
 
 def check_device_noise(rep: Report, lines, sink):
-    """Finding D20: the DMRG noise refusal reads config.noise_model, not the noise model in effect."""
+    """D22 (fixed in /repo de798eb): the DMRG noise refusal must cover the noise model *in effect*
+    (device default noise model with prefer_device_noise_model=True), not only config.noise_model."""
     for dev in DEV_NOISES:
         for cfgz in CFG_NOISES:
             for prefer in (False, True):
@@ -229,7 +232,7 @@ def check_device_noise(rep: Report, lines, sink):
                         klass = ("dmrg-ignores-device-noise-model"
                                  if prefer and L.noise_model(cfgz).noise_types == () else "dmrg-emulates-noise")
                         rep.fail(msg, spec, klass=klass)
-                    for fixed in ("0", "1"):     # current tree / proposed repair of D20 (run() checks the effective model)
+                    for fixed in ("0", "1"):     # tree before / after the D22 fix (run() checks the effective noise model)
                         lines.append(" ".join(["config.acceptdev", fixed, "mps", "ising", "2", "1" if prefer else "0",
                                                ",".join(L.kinds_of(L.noise_model(cfgz))) or "-",
                                                ",".join(L.kinds_of(L.noise_model(dev))) or "-", solver]))
@@ -280,7 +283,7 @@ def check(rep: Report, tier: str, seed: int) -> None:
             pending = mo
             continue
         if kind == "device-fixed":
-            # variant resolution for finding D20: the real code must match the current-tree model or the repaired one
+            # variant resolution for D22 (fixed): the real code must match the current-tree model or the repaired one
             if mo is not None and pending != mo:
                 variant["asFound" if out == pending else ("repaired" if out == mo else "neither")] = \
                     variant.get("asFound" if out == pending else ("repaired" if out == mo else "neither"), 0) + 1
@@ -294,6 +297,10 @@ def check(rep: Report, tier: str, seed: int) -> None:
                 rep.broke(f"correspondence Model.Config vs real code ({kind}): spec={L.jd(spec)[:500]} "
                           f"model={mo} impl={out}")
     rep.extra["device_noise_variant_matches"] = variant
+    if variant.get("asFound"):
+        # D22 (fixed in /repo de798eb): a regression is reported, with the replay of the device witness
+        rep.broke(f"{variant['asFound']} device-noise case(s) behave like the tree before the D22 fix (run() does not "
+                  "check the noise model in effect): Props/C33.dmrg_device_noise_counterexample applies")
     rep.extra["correspondence_disagreements"] = dis
     if rep.broken and not rep.failing:
         search(rep, seed, 4000 if quick else 60000)
